@@ -27,7 +27,8 @@ META = {
              ' sizes read through PrecomputedIO, valid_huge: channels of 2'
              '4+ MiB.'
              " Round 12: well-formed images of other containers / pixel types offered to the JPEG decoder."
-             " Round 16: valid JPEG files in one-row / one-column layouts."),
+             " Round 16: valid JPEG files in one-row / one-column layouts."
+             " Round 18: mirrored sizes in codec_reuse."),
     "trusted_base": ["vlib/refs/cseg_spec.py encoder for alternative valid "
                      "layouts", "Pillow as JPEG writer"],
     "assumptions": ["a watchdog of 30 s decides 'hangs' (normal cases take "
@@ -510,6 +511,12 @@ def check_reuse(ctx, case):
                                            list(case["block"]))
     raw = ce.RawChunkEncoder(case["dtype"], C)
     chunks, bufs, rbufs = [], [], []
+    # ... and the mirrored sizes (Z, Y, X): border chunks at the X end and at
+    # the Z end of one volume have each other's shape
+    sizes = [list(s_) for s_ in case["sizes"]]
+    sizes += [s_[::-1] for s_ in sizes[1:] if s_[::-1] not in sizes]
+    case = dict(case, sizes=sizes, order=list(case["order"]) + list(
+        range(3, len(sizes))) + [2, 1])
     for i, (X, Y, Z) in enumerate(case["sizes"]):
         a = np.full((C, Z, Y, X), case["label"], dtype=dt)
         if not case["uniform"]:
@@ -534,7 +541,7 @@ def check_reuse(ctx, case):
                              type(codec).__name__, case["sizes"][i],
                              out.shape, chunks[i].shape))
         # bytes of another chunk with the requested size of this one
-        j = (i + 1) % 3
+        j = (i + 1) % len(case["sizes"])
         for codec, data in ((enc, bufs[j]), (raw, rbufs[j])):
             try:
                 out = codec.decode(data, (X, Y, Z))
